@@ -55,6 +55,7 @@ type termPlan struct {
 	SinkStalls          bool   `json:"message_queue_sink_stops_reading_before_the_signal"`
 	Mirror              bool   `json:"ipfix_and_sflow_mirroring_enabled"`
 	Ballast             int    `json:"further_templates_per_exporter"` // a large site: the cache files reach several MiB
+	StopAtBind          bool   `json:"second_life_is_stopped_the_moment_its_sockets_exist"`
 }
 
 type termWitness struct {
@@ -319,6 +320,28 @@ func runTermPlan(run *mon.Run, p termPlan, dir string, st *termStats) {
 				run.Inconclusive(fmt.Sprintf("plan %d cycle %d: collector not ready: %s", p.Index, cycle, clip(txt, 300)))
 			}
 			return
+		}
+		if p.StopAtBind && cycle == 1 {
+			// an operator (or a supervisor that changed its mind) stops the collector the moment it is up: its sockets
+			// exist, whatever else start-up still has to do - such as reading multi-MiB cache files - may not be done.
+			// The stop must be clean and must not cost the templates the files held: the next life is probed for them.
+			syscall.Kill(col.vflowPid(), syscall.SIGTERM)
+			atomic.AddInt64(&st.signals, 1)
+			werr, exited := col.wait(20 * time.Second)
+			if ct := crashText(col.stderr()); ct != "" {
+				run.Violation("term:crash:stopped-at-start", fmt.Sprintf("plan %d cycle %d: the collector crashed when stopped right after its sockets were bound: %s", p.Index, cycle, clip(ct, 500)), wit(cycle, "crash", col, 0))
+				col.kill()
+				return
+			}
+			if !exited {
+				col.kill()
+				run.Violation("term:no-exit", fmt.Sprintf("plan %d cycle %d: the collector, stopped right after its sockets were bound, had not exited after 20 s", p.Index, cycle), wit(cycle, "no exit", col, 20))
+				return
+			}
+			if werr != nil {
+				run.Violation("term:exit-status", fmt.Sprintf("plan %d cycle %d: exit status after SIGTERM right after start: %v", p.Index, cycle, werr), wit(cycle, "exit status", col, 0))
+			}
+			continue
 		}
 		// ---- after a restart: data for every acknowledged template, WITHOUT templates, must be published
 		if cycle > 0 && len(acked) > 0 {
@@ -814,6 +837,9 @@ func termMain(args mon.Args) {
 	for i := 0; i < run.Pick(1, 4); i++ {
 		plans = append(plans, termPlan{Index: 950 + i, Seed: run.Seed, Shape: "burst", When: "after-ack", Signal: "TERM", Cycles: 2, Exporters: 120, Workers: 8, Ballast: 24})
 	}
+	for i := 0; i < run.Pick(1, 4); i++ {
+		plans = append(plans, termPlan{Index: 970 + i, Seed: run.Seed, Shape: "burst", When: "after-ack", Signal: "TERM", Cycles: 3, Exporters: 120, Workers: 8, Ballast: 36, StopAtBind: true})
+	}
 	for i := 0; i < run.Pick(3, 0); i++ {
 		plans = append(plans, termPlan{Index: 2000 + i, Seed: run.Seed, Shape: "flood", When: "after-ack", Signal: "TERM", Cycles: 2, Exporters: 60, Workers: 2, Delay: 3000000})
 	}
@@ -879,7 +905,7 @@ func termMain(args mon.Args) {
 	if st.decodedAfterRestart == 0 && args.Replay == "" {
 		run.HarnessError("no acknowledged template was ever probed after a restart: the monitor observed nothing")
 	}
-	run.SetRule("the real vflow binary with private ports/pid/cache files and a TCP sink (rawSocket producer); exporters emulated from 127.x.y.z source addresses. Plans enumerate traffic shape {idle, steady, burst of template announcements from 1-500 exporters, flood with 1 worker} × signal time {after acknowledgement, mid-burst, during start-up} × {SIGTERM, SIGINT} × 2-4 stop/start cycles on the same files × elements file installed or not × restart under continuing traffic × mirroring on in the plans whose traffic continues across the signal, plus plans in which every exporter re-announces a much smaller template in later cycles (the saved cache shrinks), plans in which the signal is repeated 50-700 ms into the shutdown, plans in which 120 exporters announce 24 further 25-field templates each so that the cache files reach several MiB, and plans in which the message-queue sink stops reading before the signal so that decoded messages are still queued behind a blocked producer; thorough adds the race-built binary and strace recvfrom delay injection (3 s) that stalls the read loop across the shutdown window. Oracles: exit status 0, no panic/fatal on stderr, exit within 10 s, both cache files complete JSON and loadable with every template whose data had been seen at the sink before the signal, and after the restart data sent WITHOUT templates for every such (exporter,template) is published and equals the stand-alone decode. distinct = plan descriptor")
+	run.SetRule("the real vflow binary with private ports/pid/cache files and a TCP sink (rawSocket producer); exporters emulated from 127.x.y.z source addresses. Plans enumerate traffic shape {idle, steady, burst of template announcements from 1-500 exporters, flood with 1 worker} × signal time {after acknowledgement, mid-burst, during start-up} × {SIGTERM, SIGINT} × 2-4 stop/start cycles on the same files × elements file installed or not × restart under continuing traffic × mirroring on in the plans whose traffic continues across the signal, plus plans in which every exporter re-announces a much smaller template in later cycles (the saved cache shrinks), plans in which the signal is repeated 50-700 ms into the shutdown, plans in which 120 exporters announce 24 further 25-field templates each so that the cache files reach several MiB (in one of them the second life is stopped the moment its sockets exist and a third is probed), and plans in which the message-queue sink stops reading before the signal so that decoded messages are still queued behind a blocked producer; thorough adds the race-built binary and strace recvfrom delay injection (3 s) that stalls the read loop across the shutdown window. Oracles: exit status 0, no panic/fatal on stderr, exit within 10 s, both cache files complete JSON and loadable with every template whose data had been seen at the sink before the signal, and after the restart data sent WITHOUT templates for every such (exporter,template) is published and equals the stand-alone decode. distinct = plan descriptor")
 	run.Assume("'within a few seconds' = 10 s (the one wall-clock verdict: the property is about wall-clock time); signals are sent only after the collector has bound its sockets (a signal before signal.Notify kills any program)")
 	run.Assume("'acknowledged' = a data message using that template was already seen at the sink before the signal was sent")
 	run.Finish()
